@@ -386,7 +386,7 @@ def run_property(prop, tier, seed, procs):
 
 BASE_TRUST = [
     'pyvc itself (home-made VC generator, DESIGN section 2 and 5)',
-    'z3 4.x / cvc5 1.x',
+    'z3 5.1 (python API and command line front end) / cvc5 1.0.3',
     'string theory axioms of pyvc.core (code-point arrays; str.lower modelled for ASCII only)',
     'field types of the sidecar schema (contracts/*.py schema(...))',
 ]
